@@ -1,11 +1,10 @@
 (* DecisionTieW.v - the boolean decisions of go/mcap's readers, read options and writer bookkeeping, as regenerated
    on every run from the Go AST (DecisionsW_gen.v), are the decisions the model takes.
 
-   Each `tie_*` lemma equates one generated definition with the corresponding piece of Reader.v / Writer.v; the proofs
-   are semantic (case analysis on the comparisons, then linear arithmetic), so an equivalent rewriting of the Go
-   expression (a > b for b < a, reordered disjuncts) still checks, while a changed decision (< for <=, a dropped
-   disjunct, swapped operands of a comparator) does not.  The `*_unfold` lemmas show that the model's step functions
-   use exactly these decisions at the corresponding program points. *)
+   Decisions that select between different continuations (unknown channel, in-chunk, flush) are tied as booleans
+   (`tie_*`); the four running minimum/maximum updates are tied by their *effect* on the state (`eff_*`), so that
+   `>=` for `>` in `if t > end { end = t }` (the same state transformer) still checks while `<` for `>` does not.
+   `write_message_unfold` shows that the model's write_message is WriteMessage with these decisions substituted. *)
 From Coq Require Import List NArith ZArith Bool Lia ZifyBool ZifyN.
 From RecordUpdate Require Import RecordSet.
 From Mcap Require Import Bytes GoSem Records Lexer Writer Reader DecisionsW_gen.
@@ -35,29 +34,33 @@ Ltac decide_tie := cmp_cases; bool_cases; cbn; try reflexivity; try (exfalso; li
 (* ------------------------------------------------------------------ writer bookkeeping *)
 Lemma tie_w_in_chunk o s : in_chunk o s = go_w_in_chunk o s.
 Proof. unfold in_chunk, go_w_in_chunk. generalize (o_chunked o) (w_closed s). intros [] []; reflexivity. Qed.
-
-Lemma tie_w_st_end s m : (w_st_end s <? m_log m) = go_w_st_end_upd s m.
-Proof. unfold go_w_st_end_upd. decide_tie. Qed.
-Lemma tie_w_st_start s m : ((m_log m <? w_st_start s) || (w_st_messages s <=? 1)) = go_w_st_start_upd s m.
-Proof. unfold go_w_st_start_upd. decide_tie. Qed.
-Lemma tie_w_cur_end s m : (w_cur_end s <? m_log m) = go_w_cur_end_upd s m.
-Proof. unfold go_w_cur_end_upd. decide_tie. Qed.
-Lemma tie_w_cur_start s m : (m_log m <? w_cur_start s) = go_w_cur_start_upd s m.
-Proof. unfold go_w_cur_start_upd. decide_tie. Qed.
 Lemma tie_w_flush o s : (o_chunksize o <? Z.of_N (blen (w_cbuf s)))%Z = go_w_flush o s.
 Proof. unfold go_w_flush. decide_tie. Qed.
 Lemma tie_w_unknown_channel s m :
   go_w_unknown_channel s m = match assoc_get (m_chan m) (w_channels s) with None => true | Some _ => false end.
 Proof. unfold go_w_unknown_channel, go_isnil. destruct (assoc_get _ _); reflexivity. Qed.
 
-Lemma stats_time_unfold s m :
-  stats_time (m_log m) s =
-  let s1 := if go_w_st_end_upd s m then s <| w_st_end := m_log m |> else s in
-  if go_w_st_start_upd s1 m then s1 <| w_st_start := m_log m |> else s1.
-Proof.
-  unfold stats_time. cbv zeta. rewrite (tie_w_st_end s m).
-  destruct (go_w_st_end_upd s m); rewrite <- tie_w_st_start; reflexivity.
-Qed.
+(* the running min/max updates, as state transformers *)
+Definition upd_cur_end_go (s : wstate) (m : message) := if go_w_cur_end_upd s m then s <| w_cur_end := m_log m |> else s.
+Definition upd_cur_start_go (s : wstate) (m : message) := if go_w_cur_start_upd s m then s <| w_cur_start := m_log m |> else s.
+Definition upd_st_end_go (s : wstate) (m : message) := if go_w_st_end_upd s m then s <| w_st_end := m_log m |> else s.
+Definition upd_st_start_go (s : wstate) (m : message) := if go_w_st_start_upd s m then s <| w_st_start := m_log m |> else s.
+
+Ltac effect_tie s :=
+  destruct s; cbn; cmp_cases; bool_cases; cbn; try reflexivity; try (exfalso; lia); try (unfold set; cbn; f_equal; lia).
+
+Lemma eff_cur_end s m : upd_cur_end_go s m = if w_cur_end s <? m_log m then s <| w_cur_end := m_log m |> else s.
+Proof. unfold upd_cur_end_go, go_w_cur_end_upd. effect_tie s. Qed.
+Lemma eff_cur_start s m : upd_cur_start_go s m = if m_log m <? w_cur_start s then s <| w_cur_start := m_log m |> else s.
+Proof. unfold upd_cur_start_go, go_w_cur_start_upd. effect_tie s. Qed.
+Lemma eff_st_end s m : upd_st_end_go s m = if w_st_end s <? m_log m then s <| w_st_end := m_log m |> else s.
+Proof. unfold upd_st_end_go, go_w_st_end_upd. effect_tie s. Qed.
+Lemma eff_st_start s m :
+  upd_st_start_go s m = if (m_log m <? w_st_start s) || (w_st_messages s <=? 1) then s <| w_st_start := m_log m |> else s.
+Proof. unfold upd_st_start_go, go_w_st_start_upd. effect_tie s. Qed.
+
+Lemma stats_time_unfold s m : stats_time (m_log m) s = upd_st_start_go (upd_st_end_go s m) m.
+Proof. rewrite eff_st_start, eff_st_end. reflexivity. Qed.
 
 (* WriteMessage with the decisions of the Go source substituted: the model's write_message is this function *)
 Definition write_message_go (o : wopts) (comp : nat -> bytes -> bytes) (flt : option fault) (m : message) (s : wstate) : wres :=
@@ -71,17 +74,16 @@ Definition write_message_go (o : wopts) (comp : nat -> bytes -> bytes) (flt : op
     | (s, Some e) => (s, Some e)
     | (s, None) =>
       let s := s <| w_cur_count := w_cur_count s + 1 |> in
-      let s := if go_w_cur_end_upd s m then s <| w_cur_end := m_log m |> else s in
-      let s := if go_w_cur_start_upd s m then s <| w_cur_start := m_log m |> else s in
+      let s := upd_cur_start_go (upd_cur_end_go s m) m in
       match (if go_w_flush o s then flush_active_chunk o comp flt s else (s, None)) with
       | (s, Some e) => (s, Some e)
-      | (s, None) => (stats_time (m_log m) s, None)
+      | (s, None) => (upd_st_start_go (upd_st_end_go s m) m, None)
       end
     end
   else
     match write_record_dst o flt OpMessage body s with
     | (s, Some e) => (s, Some e)
-    | (s, None) => (stats_time (m_log m) s, None)
+    | (s, None) => (upd_st_start_go (upd_st_end_go s m) m, None)
     end.
 
 Lemma write_message_unfold o comp flt m s : write_message o comp flt m s = write_message_go o comp flt m s.
@@ -90,13 +92,16 @@ Proof.
   destruct (assoc_get (m_chan m) (w_channels s)); [|reflexivity].
   cbv zeta.
   match goal with |- context [go_w_in_chunk o ?x] => rewrite <- (tie_w_in_chunk o x) end.
-  destruct (in_chunk o _); [|reflexivity].
-  unfold bindw at 1.
-  destruct (write_record_chunk OpMessage (enc_message m) _) as [s1 [e|]]; [reflexivity|].
-  repeat match goal with
-  | |- context [go_w_cur_end_upd ?x m] => rewrite <- (tie_w_cur_end x m)
-  | |- context [go_w_cur_start_upd ?x m] => rewrite <- (tie_w_cur_start x m)
-  | |- context [go_w_flush o ?x] => rewrite <- (tie_w_flush o x)
-  end.
-  reflexivity.
+  destruct (in_chunk o _).
+  - unfold bindw at 1.
+    destruct (write_record_chunk OpMessage (enc_message m) _) as [s1 [e|]]; [reflexivity|].
+    rewrite eff_cur_start, eff_cur_end.
+    match goal with |- context [go_w_flush o ?x] => rewrite <- (tie_w_flush o x) end.
+    unfold bindw.
+    match goal with |- context [if ?c then flush_active_chunk _ _ _ ?x else _] =>
+      destruct (if c then flush_active_chunk o comp flt x else (x, None)) as [s2 [e|]] end; [reflexivity|].
+    rewrite <- stats_time_unfold. reflexivity.
+  - unfold bindw.
+    destruct (write_record_dst o flt OpMessage (enc_message m) _) as [s1 [e|]]; [reflexivity|].
+    rewrite <- stats_time_unfold. reflexivity.
 Qed.
